@@ -384,6 +384,7 @@ fn check_cross(case: &CrossCase) -> Verdict {
         any_accept |= check_text(&mut v, target, text);
     }
     let same_type = target == case.source.info().index;
+    v.class(TYPES[target].name);
     v.class_if(same_type, "same-type");
     v.class_if(!same_type && any_accept, "other-type-accepted");
     // schema violating input (or a type with >= 2 derive features reading its own output)
@@ -414,6 +415,7 @@ fn check_near(case: &NearCase) -> Verdict {
         }
     }
     v.class_if(applied == 0, "no-mutation-applied");
+    v.class(info.name);
     let as_value = val.to_value();
     let texts = [
         format!("{}", print_recon(&as_value)),
@@ -529,7 +531,7 @@ pub fn probe(ty: &str, text: &str) {
 
 pub fn run(ctx: &mut Ctx) {
     ctx.rule(
-        "typed: instances of 44 battery types (37 derived with tag / rename / convention / header / header_body / attr / \
+        "typed: instances of 49 battery types (42 derived with tag / rename / convention / header / header_body / attr / \
          body / slot / skip / newtype / generics / nesting / collections, 7 built-in), uniform over types, fields at \
          numeric / text boundaries. cross: printer output (3 writers) of one type read as a random battery type. near: \
          as_value of an instance with 1-3 structural edits (missing / extra / duplicate / reordered items and attributes, \
